@@ -140,8 +140,11 @@ def run_case(clause, case):
             signal.setitimer(signal.ITIMER_REAL, CASE_TIME_LIMIT)
         except ValueError:      # not in the main thread
             use_alarm = False
+    import contextlib
+    import io
     try:
-        clause.check(case, ctx)
+        with contextlib.redirect_stdout(io.StringIO()):   # persim prints notices ("Bad choice of grid ...")
+            clause.check(case, ctx)
     except CaseTimeout:
         # typical cases take milliseconds; no result after minutes is reported as non-termination
         out.update(outcome="violation", sig="%s/no_result_within_%ds" % (clause.name, CASE_TIME_LIMIT),
